@@ -21,7 +21,7 @@ PLANS = {
  "C08": P([("caches", 60)], [("caches", 2000)]),
  "C09": P([("caches_reopen", 40), ("caches_faults", 30)], [("caches_reopen", 1200), ("caches_faults", 1200)]),
  "C10": P([("resample", 60)], [("resample", 2000), ("boundary", 10)]),
- "C11": P([("caches", 30), ("cache_sections", 6), ("caches_reopen", 10)], [("caches", 800), ("cache_sections", 150), ("caches_reopen", 300)]),
+ "C11": P([("caches", 30), ("cache_sections", 12), ("caches_reopen", 10)], [("caches", 800), ("cache_sections", 150), ("caches_reopen", 300)]),
  "C12": P([("roundtrip", 40), ("reopen", 15), ("torn", 30), ("index_states", 15), ("boundary", 12)],
           [("roundtrip", 800), ("reopen", 400), ("torn", 600), ("index_states", 400), ("boundary", 60)]),
  "C13": P([("ranges", 70), ("bigsection", 3)], [("ranges", 2500), ("boundary", 30), ("bigsection", 40)]),
@@ -30,7 +30,7 @@ PLANS = {
  "C16": P([("roundtrip", 30), ("refuse", 20), ("caches", 20), ("ranges", 10), ("reopen", 40)], [("roundtrip", 600), ("refuse", 500), ("caches", 600), ("ranges", 300)]),
  "C17": P([("contract", 60), ("roundtrip", 10)], [("contract", 1500), ("roundtrip", 200)]),
  "C18": P([("corrupt", 80)], [("corrupt", 2500)]),
- "C19": P([("totality", 60), ("bigline", 6), ("cache_sections", 3), ("resample", 30)],
+ "C19": P([("totality", 60), ("bigline", 6), ("cache_sections", 8), ("resample", 30)],
           [("totality", 1500), ("bigline", 11), ("cache_sections", 60), ("resample", 300), ("contract", 200)], totality=True, op_timeout_ms=20000),
 }
 
